@@ -80,6 +80,8 @@ Step(cfg, g, e) ==
     [] e.op = "ADV" ->
          LET Age(r) == IF r.ip = None \/ r.t >= cfg.leaseticks THEN r ELSE [r EXCEPT !.t = @ + 1] IN
          [g EXCEPT !.bound = [d \in Clients(cfg) |-> Age(g.bound[d])], !.offer = [d \in Clients(cfg) |-> Age(g.offer[d])]]
+    [] e.op = "REFRESH" ->   \* the server extended the client's binding without naming it (shared lifetime)
+         IF g.bound[c].ip # None THEN [g EXCEPT !.bound[c].t = 0] ELSE g
     [] e.op = "CLEAN" ->  \* the cleanup tick ends every expired binding
          [g EXCEPT !.bound = [d \in Clients(cfg) |-> IF g.bound[d].ip # None /\ ~Unexpired(cfg, g, d) THEN NoRec ELSE g.bound[d]],
                    !.sticky = [d \in Clients(cfg) |-> IF g.bound[d].ip # None /\ ~Unexpired(cfg, g, d) THEN g.sticky[d] \ {g.bound[d].ip} ELSE g.sticky[d]]]
@@ -98,8 +100,10 @@ NodeClauses(cfg, g, n) ==
   \cup (IF -9 \notin SeqToSet(n.drain) /\ (-3 \in SeqToSet(n.drain) \/ ~((Usable(cfg) \ HeldBack(cfg, g)) \subseteq SeqToSet(n.drain)))
           THEN {"ReleasedAvailable"} ELSE {})
   \cup (IF -9 \notin SeqToSet(n.drain) /\ \E u \in SeqToSet(n.drain) : u # -3 /\
-              (u \notin Usable(cfg) \/ u \in g.declined \/ \E d \in Clients(cfg) : Unexpired(cfg, g, d) /\ g.bound[d].ip = u)
+              (u \notin Usable(cfg) \/ \E d \in Clients(cfg) : Unexpired(cfg, g, d) /\ g.bound[d].ip = u)
           THEN {"NotOthers"} ELSE {})
+  \cup (IF -9 \notin SeqToSet(n.drain) /\ \E u \in SeqToSet(n.drain) : u \in g.declined
+          THEN {"NotDeclined"} ELSE {})
 
 \* abstract invariant: the ghost itself never holds two unexpired bindings on one address
 NoDoubleBinding(cfg, g) == \A a, b \in Clients(cfg) : a # b /\ Unexpired(cfg, g, a) /\ Unexpired(cfg, g, b) => g.bound[a].ip # g.bound[b].ip
